@@ -587,6 +587,19 @@ theorem C09_frontend_skeleton :
     skelOf "src/iterator/mod.rs" "next" =
       ["loop", "poll_signal.has_signals", "signal.some", "closed.none", "pending.continue", "err.panic"] := by decide
 
+/-- **C09.constructor_skeleton** — tie to the source (regenerated): every front end makes one pair and
+hands its ends to `SignalDelivery::with_pipe` as (read, write), in this order: the end the consumer reads,
+polls or registers with its reactor is the end the deliveries do *not* write to. signal-hook-mio registers
+exactly that read end with the `mio::Registry`, and its `pending` is the back end's `pending` (drain, then
+scan). -/
+theorem C09_constructor_skeleton :
+    skelOf "src/iterator/mod.rs" "with_exfiltrator" = ["pair", "with_pipe.read.write"] ∧
+    skelOf "signal-hook-mio/src/lib.rs" "with_exfiltrator" = ["pair", "with_pipe.read.write"] ∧
+    skelOf "signal-hook-tokio/src/lib.rs" "with_exfiltrator" = ["pair", "with_pipe.read.write", "iterator.new"] ∧
+    skelOf "signal-hook-async-std/src/lib.rs" "with_exfiltrator" = ["pair", "with_pipe.read.write", "iterator.new"] ∧
+    skelOf "signal-hook-mio/src/lib.rs" "register" = ["read.register"] ∧
+    skelOf "signal-hook-mio/src/lib.rs" "pending" = ["pending"] := by decide
+
 end SigHook.Iter
 
 /-! ## Queueing exfiltrators: the scan hands out everything that is queued (`Lemmas/Scan.lean`) -/
